@@ -280,6 +280,20 @@ def rule_r7(ctx):
         else:
             ctx.r.violation(rid, key_of(f, None, "splitter::" + fn_), "the target is split by %s into %s: the path component no longer carries everything between authority and '?' (e.g. ';params' of the last segment are cut off)"
                             % (norm(n.value)[:40], norm(tg)[:60]), f.loc(n))
+    # the hand-written branch (targets starting with //) cuts the fragment at the FIRST '#' and the query at the FIRST '?'
+    # (everything after the first '?' is the query, further '?' included - RFC 3986 3.4)
+    ncut = 0
+    for c in ast.walk(f.node):
+        if isinstance(c, ast.Call) and isinstance(c.func, ast.Attribute) and c.func.attr in ("split", "rsplit", "partition", "rpartition") and c.args \
+                and isinstance(c.args[0], ast.Constant) and c.args[0].value in (b"?", b"#", "?", "#"):
+            ncut += 1
+            first = c.func.attr == "partition" or (c.func.attr == "split" and len(c.args) == 2 and isinstance(c.args[1], ast.Constant) and c.args[1].value == 1)
+            if first:
+                ctx.r.ok(rid, "target cut at the first %r" % c.args[0].value, f.loc(c))
+            else:
+                ctx.r.violation(rid, key_of(f, None, "cut-not-first::%s" % (c.args[0].value if isinstance(c.args[0].value, str) else c.args[0].value.decode())),
+                                "the target is cut by %s: not at the first %r - a query that itself contains %r is split in the wrong place (part of it lands in PATH_INFO)" % (norm(c)[:40], c.args[0].value, c.args[0].value), f.loc(c))
+    ctx.r.floor(rid, ncut, 2, "hand-written cuts at '#' / '?' in split_uri")
     # no unquote before the split
     for c in ast.walk(f.node):
         if isinstance(c, ast.Call) and "unquote" in (dotted(c.func) or "") and not any(c is e or any(c is x for x in ast.walk(e)) for e in rets[0].value.elts):
